@@ -99,7 +99,7 @@ def jobs(tier, seed):
     js += batches("parked", scale(tier, 120, 3000), scale(tier, 10, 100), gen="dag", gseed=seed + 10, p_fail=0.15,
                   P=dict(P, p_items=0.35, p_retry=0.1, p_expr_conc=0.2, xs_max=3, nmax=5), scheds=2, name="pending-and-paused-tasks")
     # pause, then cancel while a with-items task rests between items and other actions still run
-    js += batches("ctl_sweep", scale(tier, 40, 1000), scale(tier, 4, 25), gen="dag", gseed=seed + 8, p_fail=0.1,
+    js += batches("ctl_sweep", scale(tier, 110, 1500), scale(tier, 5, 25), gen="dag", gseed=seed + 8, p_fail=0.1,
                   P=dict(p_items=0.55, nmax=4, p_join=0.3, p_retry=0.1, p_expr_conc=0.3, xs_max=3), modes=["pause_then_cancel"],
                   name="pause-then-cancel")
     # the repository's own fixture definitions under generated outcomes, schedules and requests
